@@ -1288,6 +1288,13 @@ func (w *worker) writeCombiner(key TaskName) {
 		part := part
 		combiner := <-w.combiners[key][part]
 		g.Go(func() (err error) {
+			// Writing the combiner removes its spill directory. Make sure
+			// that it is also removed if we fail before we get there.
+			defer func() {
+				if discardErr := combiner.Discard(); discardErr != nil {
+					log.Debug.Printf("error discarding combiner: %v", discardErr)
+				}
+			}()
 			// Writing the combiner merges its runs with the user's combine
 			// function.
 			defer func() {
